@@ -70,6 +70,55 @@ INSIDE_EXTRA = [
 ]
 
 
+def chain_scripts():
+    """every pair of comparison operators in a chain `a o1 b o2 c` over run-time values, for every relative order of a, b, c"""
+    ops = ["<", "<=", ">", ">=", "==", "!="]
+    out = []
+    for a, b, c in [(2, 5, 3), (5, 2, 3), (3, 3, 3), (1, 2, 3), (3, 2, 1), (2, 3, 2), (3, 2, 3), (2, 2, 5), (5, 2, 2)]:
+        lines = [f"a = {a}", f"b = {b}", f"c = {c}"]
+        for o1 in ops:
+            for o2 in ops:
+                lines += [f"if a {o1} b {o2} c:", "    mon.write(1)", "else:", "    mon.write(0)"]
+        lines += ["n = 0", "while True:", "    n += 1", "    if 0 <= n % 4 < 2:", "        mon.write(n)", "    if a < n <= c + 2 != b:", "        mon.write(0 - n)"]
+        out.append((f"chained-compare-{a}{b}{c}", "\n".join(lines) + "\n"))
+    return out
+
+
+def list_scripts(rng, n):
+    """one int list with repeated values: append / remove (of a value that is present, often more than once) / indexed reads / scans;
+    every printed element is compared with CPython (E only).  Copies and re-assignments of lists are C09's K09 findings and stay out."""
+    out = [("list-remove-duplicate", "xs = [3, 7, 3, 9]\nxs.remove(3)\nmon.write(xs[0])\nmon.write(xs[1])\nmon.write(xs[2])\nmon.write(len(xs))\n"),
+           ("list-remove-duplicate-loop", "xs = [5, 1, 5]\nwhile True:\n    xs.append(1)\n    xs.remove(1)\n    mon.write(xs[0])\n    mon.write(xs[1])\n    mon.write(xs[2])\n")]
+    for k in range(n):
+        xs = [rng.randint(1, 3) for _ in range(rng.randint(1, 5))]
+        lines = [f"xs = {xs!r}"]
+        cur = list(xs)
+        def ops(cur, pad, m):
+            ls = []
+            for _ in range(m):
+                c = rng.choice(["ap", "rm", "rm", "get", "neg", "len", "scan"])
+                if c == "ap":
+                    v = rng.randint(1, 3); cur.append(v); ls.append(f"{pad}xs.append({v})")
+                elif c == "rm" and cur:
+                    v = rng.choice(cur); cur.remove(v); ls.append(f"{pad}xs.remove({v})")
+                elif c == "get" and cur:
+                    ls.append(f"{pad}mon.write(xs[{rng.randrange(len(cur))}])")
+                elif c == "neg" and cur:
+                    ls.append(f"{pad}mon.write(xs[len(xs) - 1])")
+                elif c == "scan":
+                    ls += [f"{pad}for i in range(len(xs)):", f"{pad}    mon.write(xs[i])"]
+                else:
+                    ls.append(f"{pad}mon.write(len(xs))")
+            return ls
+        lines += ops(cur, "", rng.randint(2, 7))
+        if rng.random() < 0.5:
+            lines.append("while True:")
+            v = rng.randint(1, 3)
+            lines += [f"    xs.append({v})"] + ops(cur + [v], "    ", 0) + [f"    xs.remove({v})", "    for i in range(len(xs)):", "        mon.write(xs[i])"]
+        out.append((f"list-values-{k}", "\n".join(lines) + "\n"))
+    return out
+
+
 def same_events(a, b):
     """serial lines equal as text; a device float/double line (bit pattern) equals a Python number numerically"""
     import struct
@@ -121,6 +170,9 @@ def run(ctx: Ctx) -> int:
     # programs whose top-level branches / loops introduce names (promotion; model side = tr2)
     n_plain = len(progs) + 1
     promo = [langgen.G(rng, max_depth=rng.choice([2, 3]), promote=True).program() for _ in range(ctx.n(60, 1200))]
+    # conditions written as chained comparisons (`a < b <= c`): the model is given the conjunction they abbreviate, so T is skipped for them
+    progs += [langgen.G(rng, max_depth=rng.choice([2, 3]), chains=True).program() for _ in range(ctx.n(50, 600))]
+    n_plain = len(progs) + 1
     # every top-level `break` directly in the main loop must be rejected (through if nesting too)
     progs.append({"pre": [("as", "a", ("i", 1))], "loop": [("wr", ("v", "a")), ("if", ("cmp", "gt", ("v", "a"), ("i", 0)), [("brk",)], [])]})
     progs += promo
@@ -159,7 +211,9 @@ def run(ctx: Ctx) -> int:
         real_lines = norm(cpp)
         ctx.cov["traces_validated_against_impl"] += 1
         ctx.case(sx, nontrivial=("while" in sx or "for" in sx or "if" in sx), sample={"script": src, "model_c": model_lines[:12]} if len(ctx.cov["samples"]) < 2 else None)
-        if model_lines != real_lines:
+        if "'chain'" in repr(p):
+            ctx.count("programs-with-chained-comparison")
+        elif model_lines != real_lines:
             k = next((i for i, (a, b) in enumerate(zip(model_lines, real_lines)) if a != b), min(len(model_lines), len(real_lines)))
             ctx.tie_diff("tie T (render(tr p) vs emit(parse(text p)))", replay, model_lines[max(0, k - 1):k + 3], real_lines[max(0, k - 1):k + 3])
         # ---- S_py
@@ -201,7 +255,9 @@ def run(ctx: Ctx) -> int:
             ctx.fail("core:break-in-main-loop-accepted", "a `break` whose innermost loop is the main loop was accepted", {"script": src})
     # ---- constructs around the fragment (E only)
     extra = [(k, d, "\n".join(langgen.HEADER) + "\n" + body, False) for k, d, body in OUTSIDE] + \
-            [("core:" + k, k, "\n".join(langgen.HEADER) + "\n" + body, True) for k, body in INSIDE_EXTRA]
+            [("core:" + k, k, "\n".join(langgen.HEADER) + "\n" + body, True) for k, body in INSIDE_EXTRA] + \
+            [("core:chained-compare", k, "\n".join(langgen.HEADER) + "\n" + body, True) for k, body in chain_scripts()] + \
+            [("core:list-values", k, "\n".join(langgen.HEADER) + "\n" + body, True) for k, body in list_scripts(rng, ctx.n(25, 300))]
     outs = [cxx.transpile(s) for _, _, s, _ in extra]
     jobs = [(cpp, 3, "") for cpp, e in outs if cpp is not None]
     it = iter(cxx.run_many(ctx, jobs))
